@@ -41,6 +41,22 @@ pub const NONASCII_NAMES: &[&str] = &[
     "сумма", "Łukasz", "idő", "中", "a中b", "Őz", "ŁA", "šx", "x𝔸", "\u{141}\u{142}\u{143}",
     "вход", "флаг", "такт", "ж", "\u{130}x", "\u{120}", "a\u{10a}b", "\u{1f600}", "日本語", "\u{e9}\u{301}",
 ];
+// names made of the delimiters of the lexical level: one or an odd number of double quotes, string-literal-like text, comment starts,
+// parentheses, `#`, line breaks and tabs; all of them legal inside |..| (only `|` and `\` are not)
+pub const DELIMITER_NAMES: &[&str] = &[
+    "in\"0", "\"", "a\"b", "say \"hi", "\"(", ")\"", "x\")", "(\"", "\"a b\"", "\"\"", "\"\"\"", "\" \"", "\"a\" \"", "s \"(\" t", "\"x;y\"",
+    ";", "a;b(", "; c", "(;", ";)", "#", "#b", "#x", "a#(", "()", ")(", "((", "))", "( (", ") \"",
+    "a\n;b", "a\n(b", "a\n\"b", "\n", "\t", "\r\n", "x\t\"y", " \n ", "(\n", "a\nb\nc",
+];
+/// a name from [`DELIMITER_NAMES`] or a random string over the delimiter alphabet
+pub fn delimiter_name(rng: &mut Rng) -> String {
+    if rng.chance(1, 2) {
+        return rng.pick(DELIMITER_NAMES).to_string();
+    }
+    const ALPHABET: &[char] = &['"', '"', ';', '(', ')', '#', ' ', '\n', '\t', 'a', '0', '_', '"'];
+    let n = 1 + rng.below(4);
+    (0..n).map(|_| *rng.pick(ALPHABET)).collect()
+}
 pub const RESERVED_NAMES: &[&str] = &[
     "let", "push", "pop", "exit", "_", "!", "as", "par", "assert", "forall", "exists", "match", "check-sat", "reset", "echo", "BINARY", "NUMERAL", "define-fun", "get-value",
     "set-logic",
@@ -57,6 +73,8 @@ pub fn name_class(n: &str) -> &'static str {
         "theory"
     } else if n.starts_with('.') || n.starts_with('@') {
         "solver-reserved"
+    } else if DELIMITER_NAMES.contains(&n) || n.contains('"') {
+        "delimiters"
     } else if NONASCII_NAMES.contains(&n) || !n.is_ascii() {
         "nonascii"
     } else if QUOTED_NAMES.contains(&n) {
@@ -111,6 +129,12 @@ impl<'a> Gen<'a> {
                 }
             }
         }
+        if !self.plain_names && self.rng.chance(1, 10) {
+            let cand = delimiter_name(self.rng);
+            if !self.used.iter().any(|(n, _)| *n == cand) {
+                return cand;
+            }
+        }
         // random multi-byte names: code point = page * 256 + low byte, every low byte (letters, digits, punctuation, controls, |, \) on pages
         // 1 .. 7, 0x4E .. 0x9D, 0xE0 .. 0xFF and above the BMP; sometimes mixed with ASCII
         if !self.plain_names && self.rng.chance(1, 12) {
@@ -153,6 +177,18 @@ impl<'a> Gen<'a> {
             name = format!("{base}_{k}");
         }
         name
+    }
+    /// a fresh symbol whose name is made of lexical delimiters (see [`DELIMITER_NAMES`])
+    pub fn delim_symbol(&mut self, tpe: Type) -> ExprRef {
+        let mut name = delimiter_name(self.rng);
+        while self.used.iter().any(|(n, _)| *n == name) {
+            name.push('"');
+        }
+        self.used.push((name.clone(), tpe));
+        match tpe {
+            Type::BV(w) => self.ctx.bv_symbol(&name, w),
+            Type::Array(a) => self.ctx.array_symbol(&name, a.index_width, a.data_width),
+        }
     }
     /// a symbol whose name has not been used in this case
     pub fn fresh_symbol(&mut self, tpe: Type) -> ExprRef {
